@@ -30,6 +30,27 @@ m(["C10"], "list-walk-skips-first-node", "src/unifiable.rs",
   "                let mut node = &mut new_list;\n                while let",
   "                let mut node = &mut new_list;\n                if let Unifiable::SLinkedList{term: _, next, count: _, tail_var: _} = node { node = &mut **next; }\n                while let", "R4/term(SLinkedList)")
 
+# ---------------- append (C16) and count / include / exclude (C17) ----------------
+m(["C16"], "append-adds-list-whole", "src/built_in_append.rs", "                    out_terms.append(&mut get_terms(&t, ss));", "                    out_terms.push(t);", "R1")
+m(["C16"], "append-skips-first-argument", "src/built_in_append.rs", "        for i in 0..(length - 1) {", "        for i in 1..(length - 1) {", "R2")
+m(["C16"], "append-walks-every-argument", "src/built_in_append.rs", "        for i in 0..(length - 1) {", "        for i in 0..length {", "R2")
+m(["C16"], "append-unifies-with-first-argument", "src/built_in_append.rs", "        let last_term = terms[length - 1].clone();", "        let last_term = terms[0].clone();", "R2")
+m(["C16"], "append-walk-of-first-argument", "src/built_in_append.rs", "                    out_terms.append(&mut get_terms(&t, ss));", "                    out_terms.append(&mut get_terms(&terms[0], ss));", "R2")
+m(["C16"], "append-unifies-on-fresh-set", "src/built_in_append.rs", "        return last_term.unify(&out, &ss);", "        return last_term.unify(&out, &Rc::new(ss.iter().cloned().map(|_| None).collect()));", "R3")
+m(["C16"], "append-returns-set-unchanged", "src/built_in_append.rs", "        return last_term.unify(&out, &ss);", "        let _ = (last_term, out);\n        return Some(Rc::clone(ss));", "R3")
+m(["C17"], "filter-polarity-swapped", "src/s_linked_list.rs", "            if include {  // Include terms which match.", "            if !include {  // Include terms which match.", "R3/polarity")
+m(["C17"], "filter-tests-element-against-itself", "src/s_linked_list.rs", "            if include {  // Include terms which match.\n                if pass_filter(filter, head, ss) {", "            if include {  // Include terms which match.\n                if pass_filter(head, head, ss) {", "R3/polarity")
+m(["C17"], "filter-keeps-the-filter-term", "src/s_linked_list.rs", "                if pass_filter(filter, head, ss) == false {\n                    filtered_terms.push(head.clone());", "                if pass_filter(filter, head, ss) == false {\n                    filtered_terms.push(filter.clone());", "R3/polarity")
+m(["C17"], "exclude-asks-to-include", "src/built_in_filter.rs", "        let filtered_list = filter(&terms[0], &terms[1], ss, false)?;", "        let filtered_list = filter(&terms[0], &terms[1], ss, true)?;", "R3/exclude-wiring")
+m(["C17"], "include-unifies-with-input", "src/built_in_filter.rs", "        let filtered_list = filter(&terms[0], &terms[1], ss, true)?;\n        let out = &terms[2];", "        let filtered_list = filter(&terms[0], &terms[1], ss, true)?;\n        let out = &terms[1];", "R3/include-wiring")
+m(["C17"], "count-counts-second-argument", "src/built_in_count.rs", "        let count = count_terms(&terms[0], &Rc::clone(&ss));", "        let count = count_terms(&terms[1], &Rc::clone(&ss));", "R2/count-wiring")
+m(["C17"], "count-stops-at-tail-variable", "src/s_linked_list.rs",
+  "        while *head != Unifiable::Nil {\n            count += 1;\n            match get_list_data(slist) {\n                Some((t, n, tv)) => {\n                    head = t;\n                    slist = n;\n                    if tv && *head != Unifiable::Anonymous {",
+  "        while *head != Unifiable::Nil {\n            count += 1;\n            match get_list_data(slist) {\n                Some((t, n, _tv)) => {\n                    head = t;\n                    slist = n;\n                    if false {", "R1/follows-tail")
+m(["C17", "C16"], "get-terms-ignores-bound-tail", "src/s_linked_list.rs",
+  "                                if let SLinkedList{term, next,\n                                    count: _, tail_var: _} = list {\n                                    head = term;\n                                    slist = next;\n                                }",
+  "                                let _ = list;", "R1/follows-tail")
+
 # ---------------- solver (C01-C05) ----------------
 m(["C01"], "or-tail-from-head-set", "src/solution_node_and_or.rs",
   "            let ss = Rc::clone(&sn_ref.ss);\n            let tail_sn = make_solution_node(Rc::new(tail_goal),\n                                             sn_ref.kb, ss,",
